@@ -179,13 +179,13 @@ func Split(in string) (toks []Tok, complete bool, states []int) {
 }
 
 // Unquote interprets a string produced by a quoting function as one shell
-// word, by the rules of POSIX 2.2 for backslash and single quotes. It fails
-// if any character of the must-quote or may-need-quoting lists occurs
-// unquoted, or if a double quote is used (whose contents would still be
-// subject to expansion).
+// word, by the rules of POSIX 2.2 for backslash, single quotes and double
+// quotes. It fails if any character of the must-quote or may-need-quoting
+// lists occurs unquoted, or if a double-quoted part contains something the
+// shell would still expand ($ or a backquote not preceded by a backslash).
 func Unquote(q string) (string, error) {
 	var out []byte
-	inSingle := false
+	inSingle, inDouble := false, false
 	for i := 0; i < len(q); i++ {
 		c := q[i]
 		switch {
@@ -195,6 +195,24 @@ func Unquote(q string) (string, error) {
 			} else {
 				out = append(out, c)
 			}
+		case inDouble:
+			// POSIX 2.2.3: inside double quotes $ and ` keep their meaning, a
+			// backslash quotes only $ ` " \ and newline, everything else is literal.
+			switch {
+			case c == '"':
+				inDouble = false
+			case c == '$' || c == '`':
+				return "", fmt.Errorf("byte %q at offset %d is inside double quotes, where a shell still expands it", c, i)
+			case c == '\\' && i+1 < len(q) && strings.IndexByte("$`\"\\", q[i+1]) >= 0:
+				out = append(out, q[i+1])
+				i++
+			case c == '\\' && i+1 < len(q) && q[i+1] == '\n':
+				return "", fmt.Errorf("backslash-newline is a line continuation, not a quoted newline")
+			default:
+				out = append(out, c)
+			}
+		case c == '"':
+			inDouble = true
 		case c == '\'':
 			inSingle = true
 		case c == '\\':
@@ -214,6 +232,9 @@ func Unquote(q string) (string, error) {
 	}
 	if inSingle {
 		return "", fmt.Errorf("unterminated single quote")
+	}
+	if inDouble {
+		return "", fmt.Errorf("unterminated double quote")
 	}
 	if q == "" {
 		return "", fmt.Errorf("empty output denotes no word at all")
